@@ -312,7 +312,37 @@ func runC14Round(run *runner, idx int64, cc *checkCase, reqs []*c14Req, raceMode
 			}
 		}()
 	}
+	// neighbours that abandon their requests: check / expand requests whose
+	// context is cancelled after a PRNG-chosen number of storage-level yields
+	// (tiny deadlines), running next to the compared requests. Their answers are
+	// not judged; whatever they leave behind must not change a neighbour's answer.
+	stopCancellers := make(chan struct{})
+	var cwg sync.WaitGroup
+	var abandoned atomic.Int64
+	for c := 0; c < 2; c++ {
+		cwg.Add(1)
+		go func(c int) {
+			defer cwg.Done()
+			rr := run.p.rng(idx, fmt.Sprintf("canceller-%d", c))
+			for {
+				select {
+				case <-stopCancellers:
+					return
+				default:
+				}
+				q := reqs[rr.IntN(len(reqs))]
+				d := time.Duration(20+rr.IntN(3000)) * time.Microsecond
+				cctx, cancel := context.WithTimeout(caseCtx, d)
+				_ = c14Exec(cctx, env, read, g, q)
+				cancel()
+				abandoned.Add(1)
+			}
+		}(c)
+	}
 	wg.Wait()
+	close(stopCancellers)
+	cwg.Wait()
+	run.count("abandoned_neighbour_requests", abandoned.Load())
 	close(results)
 	reported := map[string]bool{}
 	for o := range results {
